@@ -89,6 +89,16 @@ impl FunBuilder {
   pub fn capture_count(&self) -> u8 {
     self.capture_count
   }
+
+  /// The number of parameters the caller places above the function's first slot
+  #[inline]
+  pub fn parameter_count(&self) -> u8 {
+    match self.arity {
+      Arity::Default(req, _) => req,
+      Arity::Fixed(req) => req,
+      Arity::Variadic(req) => req,
+    }
+  }
 }
 
 impl FunBuilder {
